@@ -92,7 +92,20 @@ func (e *c15Env) snapshot() (s c15Snap, err error) {
 		if err != nil {
 			return s, err
 		}
-		s.obs = append(s.obs, o.String())
+		acc := ""
+		if m, ok := sg.(interface {
+			NumDocs() uint64
+			ChunkMode() uint32
+			Version() uint32
+			CRC() uint32
+			FieldsIndexOffset() uint64
+			StoredIndexOffset() uint64
+			DocValueOffset() uint64
+		}); ok {
+			acc = fmt.Sprintf(" accessors: numDocs=%d chunkMode=%d version=%d crc=%08x fields@%d stored@%d docvalues@%d size=%d",
+				m.NumDocs(), m.ChunkMode(), m.Version(), m.CRC(), m.FieldsIndexOffset(), m.StoredIndexOffset(), m.DocValueOffset(), sg.Size())
+		}
+		s.obs = append(s.obs, o.String()+acc)
 		b, _, err := persist(sg)
 		if err != nil {
 			return s, err
